@@ -13,6 +13,7 @@ import (
 	"runtime"
 	"runtime/debug"
 	"strings"
+	"time"
 )
 
 const (
@@ -89,6 +90,8 @@ type exec struct {
 	endCh     chan struct{}
 	ended     bool
 	idle      func() bool // called when no thread is enabled; returns true if it made progress (virtual time)
+	settleMs  int         // real milliseconds to wait for the kernel to settle before "nobody is enabled" is believed (loopback TCP)
+	settled   int
 	rot       int
 	keepTrace bool
 }
@@ -111,6 +114,17 @@ func Attached() bool { return ex != nil }
 func SetIdleHook(f func() bool) {
 	if ex != nil {
 		ex.idle = f
+	}
+}
+
+// SetSettle makes the scheduler wait up to ms real milliseconds (re-evaluating enabledness every
+// millisecond) before it believes that no thread is enabled. Needed only where the kernel
+// delivers asynchronously (loopback TCP); unix sockets and epoll/eventfd are synchronous.
+//
+//go:norace
+func SetSettle(ms int) {
+	if ex != nil {
+		ex.settleMs = ms
 	}
 }
 
@@ -290,6 +304,12 @@ func Point(kind string, obj int64) {
 func (e *exec) yield(t *thread, exiting bool) {
 	for {
 		others := e.enabledOthers(t)
+		if len(others) == 0 && e.settled < e.settleMs && !(!exiting && e.enabled(t)) {
+			e.settled++
+			time.Sleep(time.Millisecond)
+			continue
+		}
+		e.settled = 0
 		if len(others) == 0 {
 			if e.idle != nil && e.idle() {
 				e.gen++
@@ -463,26 +483,46 @@ func (e *exec) threadMain(t *thread, f func()) {
 //go:norace
 func (e *exec) threadEnd(t *thread) {
 	if r := recover(); r != nil {
-		if d, ok := r.(divergence); ok {
-			e.panicMsg = "DIVERGENCE: " + d.msg
-		} else {
-			e.panicMsg = fmt.Sprintf("panic in thread %s: %v\n%s", t.name, r, trimStack(string(debug.Stack())))
-		}
-		if !e.ended {
-			e.ended = true
-			e.outcome = "panic"
-			e.poison = true
-			close(e.endCh)
-		}
+		e.handlePanic(t, r)
 		return
 	}
 	if e.poison {
 		return
 	}
-	// normal exit of the thread
+	e.exitThread(t)
+}
+
+// exitThread is the normal exit of a thread; a replay divergence may be detected while the
+// token is passed on, hence the second recover.
+//
+//go:norace
+func (e *exec) exitThread(t *thread) {
+	defer e.lastResort(t)
 	t.st = stDone
 	e.gen++
 	e.yield(t, true)
+}
+
+//go:norace
+func (e *exec) lastResort(t *thread) {
+	if r := recover(); r != nil {
+		e.handlePanic(t, r)
+	}
+}
+
+//go:norace
+func (e *exec) handlePanic(t *thread, r interface{}) {
+	if d, ok := r.(divergence); ok {
+		e.panicMsg = "DIVERGENCE: " + d.msg
+	} else {
+		e.panicMsg = fmt.Sprintf("panic in thread %s: %v\n%s", t.name, r, trimStack(string(debug.Stack())))
+	}
+	if !e.ended {
+		e.ended = true
+		e.outcome = "panic"
+		e.poison = true
+		close(e.endCh)
+	}
 }
 
 //go:norace
